@@ -66,6 +66,10 @@ ARGS = [
     ("str", "'ls -l'"),
     ("str_full", "'/bin/ls -l'"),
     ("str_empty", "''"),
+    # what the literal says is irrelevant to its grading: shell metacharacters, substitutions, wildcards, redirections
+    ("str_backticks", "'echo `id`'"),
+    ("str_dollar_paren", "'echo $(id) > /dev/null'"),
+    ("str_meta", "'ls *.py | wc -l && echo $HOME; true'"),
     ("str_implicit_concat", "'ls' ' -l'"),
     ("str_triple", "'''ls\n-l'''"),
     ("bytes", "b'ls'"),
